@@ -978,14 +978,17 @@ fn gen_glyph_set(rng: &mut Rng, lsb_mode: bool, big_ok: bool) -> Vec<Glyph> {
         }
         let mut s = if big_ok && rng.chance(1, 12) {
             // many points: exercises point counts >= 128 and long runs
-            let np = 130 + rng.below(200);
-            let nc = 1 + rng.below(3);
+            // one in three: 257-420 points that are all on (or all off) the curve, i.e. a run of more
+            // than 256 identical flags for a writer that uses one delta form throughout
+            let uniform = if rng.chance(1, 3) { Some(rng.chance(3, 4)) } else { None };
+            let np = if uniform.is_some() { 257 + rng.below(164) } else { 130 + rng.below(200) };
+            let nc = if uniform.is_some() { 1 } else { 1 + rng.below(3) };
             let mut contours: Vec<Vec<Pt>> = vec![Vec::new(); nc];
             let (mut x, mut y) = (0i32, 0i32);
             for i in 0..np {
                 x = (x + *rng.pick(&[0, 0, 3, -5, 40, -37, 200, -180])).clamp(-1500, 1500);
                 y = (y + *rng.pick(&[0, 0, 2, -7, 33, -41, 150, -160])).clamp(-1500, 1500);
-                contours[i * nc / np].push(Pt { x: x as i16, y: y as i16, on: rng.chance(2, 3) });
+                contours[i * nc / np].push(Pt { x: x as i16, y: y as i16, on: uniform.unwrap_or_else(|| rng.chance(2, 3)) });
             }
             contours.retain(|c| !c.is_empty());
             Simple { contours, instructions: Vec::new(), overlap: false }
@@ -1267,10 +1270,13 @@ pub fn gen_vfont(rng: &mut Rng, quick: bool) -> VFont {
     let n = vf.glyphs.len();
     // metrics
     let lsb_is_xmin = rng.chance(2, 3);
+    // one font in ten is strictly monospaced (every glyph incl. .notdef has the same advance)
+    let mono: Option<u16> = if rng.chance(1, 10) { Some(200 + rng.below(1800) as u16) } else { None };
     for (gid, g) in vf.glyphs.iter().enumerate() {
-        let adv = match rng.below(6) {
-            0 => 0,
-            1 => 3000,
+        let adv = match (mono, rng.below(6)) {
+            (Some(a), _) => a,
+            (None, 0) => 0,
+            (None, 1) => 3000,
             _ => 200 + rng.below(1800) as u16,
         };
         let xmin = match g {
